@@ -18,7 +18,7 @@ NP_DTYPE = {"i2": np.int16, "i4": np.int32, "i8": np.int64, "f2": np.float16, "f
 CODE = {np.dtype(v).name: k for k, v in NP_DTYPE.items()}
 EXC = (ValueError, TypeError, IndexError, KeyError, RuntimeError, AttributeError, ZeroDivisionError, OverflowError,
        NotImplementedError, AssertionError)
-REFUSALS = {"AddRefused", "IAddRefused", "ForeignRefused", "ISubRefused", "NegRefused", "DivZeroRefused", "SetDtypeRefused",
+REFUSALS = {"NewRefused", "AddRefused", "IAddRefused", "ForeignRefused", "ISubRefused", "NegRefused", "DivZeroRefused", "SetDtypeRefused",
             "FillNRefused", "MergeRefused"}
 
 
@@ -201,6 +201,12 @@ class PoolAdapter(Adapter):
             elif action == "Fill":
                 i, p, w = args
                 obs["ret"] = o[i].fill(self.pe.x(p)) if (w == 1 and self.spelling % 2) else o[i].fill(self.pe.x(p), int(w))
+            elif action == "FillHalf":
+                i, p = args
+                obs["ret"] = o[i].fill(self.pe.x(p), 0.5)
+            elif action == "NewRefused":
+                (s_,) = args
+                obs["ret"] = self._new(s_)
             elif action in ("SetDtype", "SetDtypeRefused"):
                 i, d = args
                 if self.spelling % 2:
@@ -425,6 +431,12 @@ class PoolAdapter(Adapter):
             return f"Merge/{kind(args[0])}/{args[1]}/{'inplace' if args[2] else 'copy'}"
         if action == "Slice":
             return f"Slice/{kind(args[0])}/{args[1]}:{args[2]}"
+        if action == "NewRefused":
+            s = args[0]
+            return f"NewRefused/{s['dtype']}/den{s['den']}"
+        if action == "FillHalf":
+            r = pool[args[0]]
+            return f"FillHalf/{pos_class(r['bins'], args[1])}/{kind(args[0])}"
         if action in ("Copy", "CopyEmpty", "NegRefused", "DivZeroRefused", "SetName", "Drop"):
             return f"{action}/{kind(args[0])}"
         return action
